@@ -32,7 +32,7 @@ def _z(tok):
 
 
 def _shape_to_coq(sh):
-    """'(lo hi max height L R)' | '.'  ->  Gallina term of type tree"""
+    """'(lo hi tag max height L R)' | '.'  ->  Gallina term of type tree"""
     pos = [0]
 
     def rec():
@@ -42,7 +42,7 @@ def _shape_to_coq(sh):
         assert sh[pos[0]] == "(", sh[pos[0]:pos[0] + 20]
         pos[0] += 1
         nums = []
-        for _ in range(4):
+        for _ in range(5):
             j = sh.index(" ", pos[0])
             nums.append(_z(sh[pos[0]:j]))
             pos[0] = j + 1
@@ -52,7 +52,7 @@ def _shape_to_coq(sh):
         r = rec()
         assert sh[pos[0]] == ")"
         pos[0] += 1
-        return "(Node %s %s %s %s %s %s)" % (l, nums[0], nums[1], nums[2], nums[3], r)
+        return "(Node %s %s %s %s %s %s %s)" % (l, nums[0], nums[1], nums[2], nums[3], nums[4], r)
     t = rec()
     assert pos[0] == len(sh), "trailing input in shape"
     return t
@@ -65,12 +65,13 @@ def _bits(b):
 def case_to_coq(line):
     parts = line.rstrip("\n").split(";")
     ops = []
-    for tok in parts[0].split():
+    for pos, tok in enumerate(parts[0].split()):
         if tok == "X":
             ops.append("Clear")
         else:
             k, lo, hi = tok.split(":")
-            ops.append("%s %s %s" % ("Insert" if k == "I" else "Delete", _z(lo), _z(hi)))
+            # the tag of an inserted item is the 1-based position of its Insert in the history
+            ops.append("Insert %s %s %d" % (_z(lo), _z(hi), pos + 1) if k == "I" else "Delete %s %s" % (_z(lo), _z(hi)))
     obs = []
     for st in parts[1].split("/") if parts[1] else []:
         sz, sh = st.split(",", 1)
